@@ -32,6 +32,9 @@ CONSTANTS Defects
 \*   ChainNext  ChainNext[k] = next key (0: no entry)
 \*   HasSel     entity has selector + chain for A
 \*   HasB       entity has a second animated component type B
+\*   HasE2      a SECOND entity exists, carrying only an Animator<A> ("A2" below); animate::<A> handles
+\*              both entities, and its events name their entity, so they never reach the first
+\*              entity's chain
 
 INF == 1000000000
 StNo(s) == CASE s = "None" -> 0 [] s = "Waiting" -> 1 [] s = "Playing" -> 2 [] s = "Ended" -> 3
@@ -80,7 +83,7 @@ RECURSIVE ChainFold(_, _, _)
 ChainFold(w, evs, i) ==
   IF i > Len(evs) THEN w
   ELSE LET ev == evs[i]
-           fires == /\ ev[2] = "Ended"
+           fires == /\ ev[2] = "Ended" /\ ev[1] # "A2"            \* an event of THIS entity (any of its animators)
                     /\ IF "C19_untyped_event" \in Defects THEN TRUE
                        ELSE w.an["A"].st = "Ended" /\ w.prev = w.key
                     /\ w.c.ChainNext[w.key] # 0
@@ -91,7 +94,7 @@ Chain(w) == IF ~w.c.HasSel THEN [w EXCEPT !.unread = <<>>]
 
 \* ---------------- one frame ----------------------------------------------------------
 Sys(w, s, dt) == CASE s = "chain" -> Chain(w) [] s = "select" -> Select(w)
-                   [] s = "animA" -> Animate(w, "A", dt)
+                   [] s = "animA" -> IF w.c.HasE2 THEN Animate(Animate(w, "A", dt), "A2", dt) ELSE Animate(w, "A", dt)
                    [] s = "animB" -> IF w.c.HasB THEN Animate(w, "B", dt) ELSE w
 RECURSIVE RunSystems(_, _, _, _)
 RunSystems(w, ord, dt, i) == IF i > Len(ord) THEN w ELSE RunSystems(Sys(w, ord[i], dt), ord, dt, i + 1)
@@ -110,9 +113,10 @@ SetTimeline(w, T, id) == [w EXCEPT !.an[T].tl = id, !.an[T].ovf = -1]
 SetPos(w, T, p)    == [w EXCEPT !.an[T].pos = p]
 
 NewAnimator(tl, en) == [en |-> en, pos |-> 0, st |-> "None", tl |-> tl, ovf |-> -1, runEnded |-> 0]
-World0(c, tlA, tlB, key0, enA) ==
+World0(c, tlA, tlB, tlE2, key0, enA) ==
   [c |-> c,
-   an |-> [T \in {"A", "B"} |-> IF T = "A" THEN NewAnimator(IF c.HasSel THEN 0 ELSE tlA, enA) ELSE NewAnimator(tlB, TRUE)],
-   cid |-> [T \in {"A", "B"} |-> <<"init">>],
+   an |-> [T \in {"A", "B", "A2"} |-> IF T = "A" THEN NewAnimator(IF c.HasSel THEN 0 ELSE tlA, enA)
+                                       ELSE IF T = "B" THEN NewAnimator(tlB, TRUE) ELSE NewAnimator(tlE2, TRUE)],
+   cid |-> [T \in {"A", "B", "A2"} |-> <<"init">>],
    key |-> key0, prev |-> 0, dirty |-> TRUE, unread |-> <<>>, out |-> <<>>, frame |-> 0, fired |-> 0]
 =============================================================================
